@@ -1,6 +1,7 @@
 package interp
 
 import (
+	"math/big"
 	"crypto/sha256"
 	"fmt"
 	"go/types"
@@ -248,6 +249,30 @@ func allIntrinsics() map[string]intrinsicImpl {
 	c(symPkg+".I32", bv(32, "i32"))
 	c(symPkg+".I64", bv(64, "i64"))
 	c(symPkg+".Int", bv(64, "i64"))
+	// I64Z: an int64 backed by an SMT integer constrained to the int64 range
+	// (for values that flow into math/big: avoids bit-vector/integer conversions)
+	c(symPkg+".I64Z", func(m *Machine, fr *frame, args []value) value {
+		n := m.freshName(m.argStr(args[0]))
+		if m.concrete {
+			u, _ := m.replayValue(n, 64)
+			if s, ok := m.replayVec[n]; ok {
+				if v, ok := new(big.Int).SetString(s, 10); ok {
+					u = v.Uint64()
+				}
+			}
+			t := m.c.BVConst(64, u)
+			m.inputs = append(m.inputs, inputRec{Name: n, Kind: "i64", Term: t, Conc: int64(u)})
+			return t
+		}
+		v := m.c.Var(n, smt.IntSort)
+		m.inputs = append(m.inputs, inputRec{Name: n, Kind: "int", Term: v})
+		lo := m.c.IntConst(new(big.Int).Neg(new(big.Int).Lsh(big.NewInt(1), 63)))
+		hi := m.c.IntConst(new(big.Int).Lsh(big.NewInt(1), 63))
+		m.addPC(m.c.IntCmp(smt.OIntLe, lo, v))
+		m.addPC(m.c.IntCmp(smt.OIntLt, v, hi))
+		m.c.SetRanged(v, 64)
+		return m.c.Int2BV(v, 64)
+	})
 	c(symPkg+".Bool", func(m *Machine, fr *frame, args []value) value {
 		n := m.freshName(m.argStr(args[0]))
 		if v, ok := m.replayValue(n, 1); ok {
